@@ -47,7 +47,8 @@ def cmp_matrix(m, exp, what, scale_ref):
     if abs(m.b) > 1e-12 or abs(m.c) > 1e-12:
         dis.append({"clause": "Shear", "detail": "%s has b=%r c=%r" % (what, m.b, m.c)})
     for nm, g, w in zip(("scale-x", "scale-y", "translate-x", "translate-y"), got, want):
-        tol = 1e-9 * max(abs(w), 1e-300) if nm.startswith("scale") else 1e-9 * max(1.0, abs(w), scale_ref)
+        # (the transform is handed over as text with 12 decimals: half a unit of the last place is the precision it can carry)
+        tol = 1e-9 * max(abs(w), 1e-300) + 6e-13 if nm.startswith("scale") else 1e-9 * max(1.0, abs(w), scale_ref)
         if abs(g - w) > tol:
             dis.append({"clause": "Transform", "component": nm, "rel_err": abs(g - w) / max(abs(w), 1e-300),
                         "abs_err": abs(g - w), "expected_value": w,
